@@ -153,6 +153,14 @@ fn tail_rec_param_name(name: &str) -> String {
   format!("_tailrec_param_{name}")
 }
 
+/// Whether a function's first parameter is the context object of a method or closure: `_this`, or the
+/// name the rewrite above gives it when the function became a loop. Such functions can be called
+/// through a function value, so their context parameter is type-erased.
+pub(super) fn is_context_parameter(heap: &Heap, parameter: &PStr) -> bool {
+  *parameter == PStr::UNDERSCORE_THIS
+    || parameter.as_str(heap) == tail_rec_param_name(PStr::UNDERSCORE_THIS.as_str(heap))
+}
+
 fn optimize_function_by_tailrec_rewrite_aux(
   heap: &mut Heap,
   function: Function,
